@@ -21,11 +21,11 @@ func runProbe(c *hx.Ctx) error {
 		bodies = append(bodies, b2)
 	}
 	for _, b := range bodies {
-		resp := serveWriteReq(e.h, &writeReq{params: [][2]string{{"db", e2eDB}, {"precision", c.Arg("precision", "")}}, body: []byte(b)})
+		resp := serveWriteReq(e.h, &writeReq{params: [][2]string{{"db", c.Arg("db", e2eDB)}, {"precision", c.Arg("precision", "")}}, body: []byte(b)})
 		fmt.Fprintf(os.Stderr, "write %q -> %d %q %s\n", b, resp.status, resp.body, resp.panicS)
 	}
 	show := func(tag string) {
-		name, fields, tags, ok := e.schemaOf(c.Arg("mst", "cpu"))
+		name, fields, tags, ok := e.schemaOfDB(c.Arg("db", e2eDB), c.Arg("mst", "cpu"))
 		fmt.Fprintln(os.Stderr, tag, "schema:", name, fields, tags, ok)
 		if !ok {
 			return
